@@ -8,44 +8,56 @@ contracts/c03_callsites.py - not repeated here).
 Model.  A byte buffer is a `Region` (id, length); `Bts` = window [a, a+n) of a region; `IOBuf` = cencoding.NumpyIO over a window with a
 ghost cursor kept per path; decompress_data makes a new region whose provenance (input window, codec, size) is recorded.  numpy arrays are
 `Arr` windows (root array, offset, length, element size, role data/mask, element/byte view); every store into an array and every decoder
-call is an EVENT in path.ghost["ev"]; postconditions are posed over the events of each finished path.  Words of the file that the format
-defines but this model does not compute (4-byte little-endian length prefix of a level block, the index-width byte, a run header) are
-uninterpreted functions of (region, offset): int32_le_at, byte_at, uvarint_at.  count_equal(array, v) is the number of entries == v.
+call is an EVENT in path.ghost["ev"]; numpy's length rules for `w[mask] = v` / `w[:] = v` give the IndexError / ValueError paths.
+Postconditions are posed over the events of each finished path.  Words of the file that the format defines but this model does not
+compute (4-byte little-endian length prefix of a level block, the index-width byte, a run header) are uninterpreted functions of
+(region, offset): int32_le_at, byte_at, uvarint_at.  count_equal(array, v) is the number of entries == v.  Paths with the same events /
+cursors are merged after every statement and after inlined calls (ints, bools, optionals exactly by if-then-else).
 
 The chunk (read_col) is the page sequence the FORMAT defines: page j starts at OFF(j), OFF(0) = 0, OFF(j+1) = OFF(j) + HL(j) + CPS(j)
 (header length, compressed_page_size), VS(j) = number of values in the data pages before page j, K pages, VS(K) = cmd.num_values.  The
 `while num < rows` loop is run for ONE arbitrary page k: every variable the body assigns is havoc'd under the invariant
     infile.tell() == OFF(k)   num == VS(k)   0 <= k <= K   dic is None <=> no dictionary page read, else dic is the dictionary of page 0
-    (categorical read) categories were installed from the dictionary <=> dictionary page read
+    (categorical read) categories were installed from the dictionary <=> dictionary page read, never from anything else
 proved on entry and after the body.  read_data_page / read_data_page_v2 / read_dictionary_page are cuts inside read_col (their contracts
-are the obligations proved by the runs of those functions here).
+are the obligations proved by the runs of those functions here).  read_col runs twice: [values] (use_cat False) and [categorical].
 
 Obligation names (prefix = function; what a VIOLATION reports):
- read_col.  chunk.bytes_are_first_page_offset_plus_total_compressed_size
-            page_loop.invariant_on_entry[..] / invariant_preserved[..]   prefix_sum.monotone.base/step (lemma, then instantiated)
-            page.header_parsed_at_page_start   dictionary_page.{consumed_as_dictionary, converted_once_and_kept, categories_installed_from_it}
-            data_page.{rows_are_next_window, defined_positions_get_values_in_order, null_positions_get_null,
-                       values_dereferenced_through_dictionary_iff_dictionary_encoded, plain_page_not_routed_through_dictionary,
-                       dictionary_is_the_chunk_dictionary, num_advances_by_page_num_values, index_page_is_refused}
-            categorical.{codes_only_from_dictionary_encoded_pages, no_dictionary_raises}
-            data_page_v2.callsite.{num_is_rows_so_far, output_is_whole_column, header_is_this_page, dictionary_is_chunk_dictionary, result_added_to_num}
-            exit.all_values_placed_no_overrun   exit.every_output_row_written (+ companion "[chunk num_values == rows of the row group]")
+ read_col[mode].  chunk.bytes_are_first_page_offset_plus_total_compressed_size     prefix_sum.monotone.base/step (lemma, then instantiated)
+      page_loop.invariant_on_entry[..] / invariant_preserved[..] (4 / 5 conjuncts)   page.header_parsed_at_page_start
+      dictionary_page.{consumed_as_dictionary, converted_once_and_kept, writes_no_rows, categories_installed_from_it}
+      data_page.callsite.{page_cursor_header_metadata, skip_nulls_only_for_selfmade_chunk_without_nulls, selfmade_passed_on}
+      data_page.{rows_are_next_window, defined_positions_get_values_in_order, null_positions_get_null,
+                 dictionary_indices_dereferenced_through_chunk_dictionary, plain_page_not_routed_through_dictionary}
+      categorical.codes_only_from_dictionary_encoded_pages
+      data_page_v2.callsite.{page_cursor_header_metadata, num_is_rows_so_far, output_is_whole_column, dictionary_is_chunk_dictionary,
+                             flags_passed_on}   data_page_v2.rows_written_only_by_the_v2_reader
+      exit.all_values_placed_no_overrun   exit.every_output_row_written   supported_chunk_is_not_refused@L<line>
  read_data_page.   page_bytes.{read_at_cursor_exactly_compressed_page_size, decompressed_with_chunk_codec_to_uncompressed_page_size}
-            rep_levels.{first_in_page_with_length_prefix, absent_iff_max_rep_0}  def_levels.{after_rep_levels_with_length_prefix,
-            absent_iff_required, skipped_block_only_when_no_nulls}  levels.width_is_width_from_max_level  levels.count_is_num_values
-            levels.declared_encoding_is_the_one_decoded (BIT_PACKED must raise)   num_nulls_is_num_values_minus_defined
-            values.{start_after_levels, count_is_num_values_minus_num_nulls, returned_length_is_num_values_minus_num_nulls}
-            values.dictionary.{width_byte_consumed, runs_extend_to_page_end}  values.rle_boolean.runs_start_after_length_prefix
-            values.delta.{output_width_matches_type}  returns.{definition_levels_None_iff_no_nulls, repetition_levels_None_iff_max_rep_0}
-            unsupported_encoding_raises   supported_page_is_not_refused
- read_data_page_v2.  unsupported_encoding_raises  levels.{def_read_from_uncompressed_prefix, def_width_is_width_from_max_level,
-            def_output_holds_num_values_entries}  values.{start_at_sum_of_level_lengths, length_is_compressed_size_minus_levels,
-            decompressed_iff_is_compressed_with_chunk_codec, uncompressed_size_is_page_size_minus_levels, count_is_num_values_minus_num_nulls}
-            values.dictionary.{width_byte_consumed_then_runs, output_holds_non_null_values} values.rle_boolean.length_prefix_skipped
-            values.delta.output_width_matches_type  rows.{window_is_num_to_num_plus_num_values, defined_positions_get_values_in_order,
-            null_positions_get_null, dictionary_dereferenced_unless_categorical}  page_consumed_exactly  returns_num_values
-            supported_page_is_not_refused
- read_dictionary_page.  page_bytes.*  count_is_header_num_values  decodes_whole_page_as_plain  non_plain_dictionary_page_raises
+      levels.{blocks_decoded_are_the_blocks_present, width_is_width_from_max_level, count_is_num_values, declared_encoding_is_the_one_decoded}
+      rep_levels.first_in_page_with_length_prefix   def_levels.{after_rep_levels_with_length_prefix, skipped_block_only_when_no_nulls}
+      num_nulls_is_num_values_minus_defined   values.{start_after_levels, count_is_num_values_minus_num_nulls,
+      returned_length_is_num_values_minus_num_nulls}   values.plain.decodes_from_value_start_to_page_end
+      values.dictionary.{width_byte_consumed, runs_extend_to_page_end}   values.rle_boolean.runs_start_after_length_prefix
+      values.delta.output_width_matches_type   returns.{definition_levels_None_iff_no_nulls, repetition_levels_None_iff_max_rep_0}
+      unsupported_encoding_raises   supported_page_is_not_refused@L<line>
+ read_data_page_v2.  unsupported_encoding_raises   returns_num_values   page_consumed_exactly   idx.row_index_untouched_for_flat_column
+      levels.{def_decoded_iff_page_has_nulls, def_read_from_uncompressed_prefix, def_width_is_width_from_max_level,
+      def_output_holds_num_values_entries}   values.{count_is_num_values_minus_num_nulls, start_at_sum_of_level_lengths,
+      length_is_compressed_size_minus_levels, decompressed_iff_is_compressed_with_chunk_codec, uncompressed_size_is_page_size_minus_levels,
+      hybrid_output_holds_non_null_values}   values.plain.decodes_value_section_as_physical_type
+      values.dictionary.width_byte_consumed_then_runs   values.rle_boolean.length_prefix_skipped
+      values.delta.{starts_at_value_section, output_width_matches_type}
+      rows.{window_is_num_to_num_plus_num_values, defined_positions_get_values_in_order, null_positions_get_null,
+      dictionary_dereferenced_unless_categorical, categorical_codes_only_from_dictionary_encoded_pages}
+      supported_page_is_not_refused@L<line>:<exception> / @assert-L<line>
+ read_dictionary_page.  page_bytes.*  count_is_header_num_values  decodes_whole_page_as_plain  returns_the_decoded_values
+      non_plain_dictionary_page_raises
+ + the engine's own safety obligations (<func>.no_attr_of_None@L.., slice_start_nonnegative, allocation_size_nonnegative, ...).
+Findings.  Twelve defects of /repo are re-derived / found here (contracts/findings.jsonl, ids C03-P-*, each replayed natively by
+tools/c03pages_native.py).  Every run carries the union of their INPUT REGIONS; an obligation that is REFUTED is posed a second time with
+the region excluded under `<name>[outside the regions of the recorded findings]` - that one is PROVED on the unchanged tree, so every
+counter-model lies inside a recorded finding, and a change that breaks the same obligation elsewhere is a VIOLATION of the companion.
 A source shape the script does not model gives `<run>.out_of_reach` = unknown (never a violation).
 """
 import ast
@@ -112,6 +124,11 @@ ASSUMED = [
     "count_equal(a, x), (a != x) is its complement; np.empty / np.zeros(n, dtype) has n entries of that dtype; freshly allocated object "
     "arrays hold None",
     "the output array `assign` has one entry per row of the row group (api.ParquetFile.to_pandas / pre_allocate: C06 to_pandas.slices_tile)",
+    "preconditions on the output array (api.ParquetFile.pre_allocate / _dtypes): a column read as category codes is a plain integer array "
+    "whose dtype holds the number of dictionary entries; a non-nullable integer / boolean array is only handed over for a column without "
+    "nulls; when the element size matches the physical type (`see`) an uncompressed PLAIN values section of n values is n * itemsize bytes",
+    "valid values section: a page with a non-null value has a non-empty values section (dictionary: width byte + runs when the width "
+    "is > 0; RLE booleans: 4-byte length + runs); RLE as a value encoding only for BOOLEAN, DELTA_BINARY_PACKED only for INT32 / INT64",
     "out of scope here (other properties): row_filter (C13: runs use row_filter=None), repeated columns / _assemble_objects (C15: runs use "
     "max_repetition_level == 0 in read_col and read_data_page_v2), the KeyError path of read_col (column absent from the schema)",
 ]
@@ -553,7 +570,8 @@ def store(eng, p, tgt, sel, v, node):
     if vl is not None:
         bad = p.fork(z3.And(vl != cnt, vl != 1))
         if eng.feasible(bad):
-            emit(bad, kind="numpy_raise", why="cannot assign %s values to %s selected entries" % (vl, cnt), line=node.lineno)
+            emit(bad, kind="numpy_raise", why="cannot assign n values to m selected entries (n = length of the source, m = entries selected)",
+                 view=tgt.view, srclen=vl, cnt=cnt, tgt=tgt, src=v, line=node.lineno)
             outs.append(raise_path(bad, "ValueError", node))
         p.pc.append(z3.Or(vl == cnt, vl == 1))
     if eng.feasible(p):
@@ -690,13 +708,17 @@ def width_facts(x):
 
 # ---- engine --------------------------------------------------------------------------------------------------------------------
 class PEngine(Engine):
+    default_region = None
+
     def oblige(self, p, name, kind, goal, node=None, note=""):
         if p.ctl is not None:               # a path that already raised inside this expression: nothing more is evaluated on it
             return
         super().oblige(p, name, kind, goal, node, note)
+        self.oblig[-1].region = p.ghost.get("region", self.default_region)
 
     def pose(self, p, name, goal, note="", kind="post"):
         Engine.oblige(self, p, name, kind, goal, None, note)
+        self.oblig[-1].region = p.ghost.get("region", self.default_region)
 
     def getattr(self, o, attr, p, node):
         if isinstance(o, Opaque) and isinstance(o.tag, tuple) and len(o.tag) == 2 and o.tag[0] == "global:parquet_thrift" \
@@ -956,6 +978,15 @@ class Choice:
 
     def __init__(self, alts):
         self.alts = alts
+
+    def attr(self, eng, p, name):
+        raise Unsupported("attribute of a value that depends on the branch taken before a join")
+
+    def call_method(self, eng, p, name, args, kw, node):
+        raise Unsupported("method of a value that depends on the branch taken before a join")
+
+    def truth(self, eng, p):
+        raise Unsupported("truth of a value that depends on the branch taken before a join")
 
 
 def _scalar_marker(v):
@@ -1336,8 +1367,13 @@ def short_model(m):
     return dict(sorted(d.items())[:48])
 
 
+OUTSIDE = "[outside the regions of the recorded findings]"
+
+
 def discharge(res, eng, timeout, rename=None):
-    """consecutive obligations with the same hypotheses share one solver"""
+    """consecutive obligations with the same hypotheses share one solver.  A REFUTED obligation whose path carries a `region` (the
+    union of the input regions of the findings recorded for this function) is posed a second time with the region excluded, under
+    the name + OUTSIDE: on the unchanged tree that one is PROVED, i.e. every counter-model lies inside a recorded finding."""
     from vc import backends
     cur_key, sol = None, None
     for ob in eng.oblig:
@@ -1357,11 +1393,21 @@ def discharge(res, eng, timeout, rename=None):
         sol.add(z3.Not(ob.goal))
         r = sol.check()
         m = sol.model() if r == z3.sat else None
+        region = getattr(ob, "region", None)
+        r2 = m2 = None
+        t2 = time.time()
+        if r == z3.sat and region is not None:
+            sol.add(z3.Not(region))
+            r2 = sol.check()
+            m2 = sol.model() if r2 == z3.sat else None
         sol.pop()
         if r == z3.unsat:
             res.add(name, PROVED, None, time.time() - t, "z3", ob.note or ob.kind)
         elif r == z3.sat:
-            res.add(name, REFUTED, short_model(m), time.time() - t, "z3", ob.note or ob.kind)
+            res.add(name, REFUTED, short_model(m), t2 - t, "z3", ob.note or ob.kind)
+            if region is not None:
+                st2 = PROVED if r2 == z3.unsat else REFUTED if r2 == z3.sat else UNKNOWN
+                res.add(name + OUTSIDE, st2, short_model(m2), time.time() - t2, "z3", ob.note or ob.kind)
         else:
             st, be, secs, m = backends.discharge(ob, timeout)
             res.add(name, st, short_model(m), secs, be, ob.note or ob.kind)
@@ -1461,6 +1507,7 @@ def run_dictionary_page(ctx, funcs, timeout):
     except Unsupported as ex:
         res.add(fn + ".out_of_reach", UNKNOWN, None, 0.0, "engine", str(ex))
         return res
+    eng.default_region = z3.Not(in_set(page.denc, (ENC["PLAIN"], ENC["PLAIN_DICTIONARY"])))
     for q in rets:
         body = page_bytes_obligations(eng, q, fn, f, entry, page, S)
         pl = events(q, "plain")
@@ -1533,6 +1580,10 @@ def run_data_page_v1(ctx, funcs, timeout):
                                 z3.Implies(E == ENC["DELTA_BINARY_PACKED"], z3.Or(S.ptype == TY["INT32"], S.ptype == TY["INT64"]))]
     p.pc += width_facts(S.max_def) + width_facts(S.max_rep)
     f.set(p, entry)
+    # input regions of the findings recorded for read_data_page: BIT_PACKED levels decoded as RLE; RLE booleans (length prefix not skipped);
+    # dictionary-encoded BOOLEAN (width byte not consumed)
+    eng.default_region = z3.Or(page.dle != ENC["RLE"], page.rle != ENC["RLE"], E == ENC["RLE"],
+                               z3.And(in_set(E, DICT_ENCS), S.ptype == TY["BOOLEAN"]))
     st, _, _ = solve(list(p.pc), timeout)
     if st == REFUTED:
         ctx.vacuity["requires_sat"] += 1
@@ -1585,8 +1636,6 @@ def run_data_page_v1(ctx, funcs, timeout):
             eng.pose(q, fn + ".levels.count_is_num_values", z3.And(rep_ev["cap"] == NV, rep_ev["out"].root.n == NV, rep_ev["out"].off == 0))
             eng.pose(q, fn + ".levels.declared_encoding_is_the_one_decoded", page.rle == ENC["RLE"],
                      "levels are decoded as RLE hybrid only if the header declares RLE (deprecated BIT_PACKED must be refused or decoded as such)")
-            eng.pose(q, fn + ".levels.declared_encoding_is_the_one_decoded[header declares RLE levels]",
-                     z3.Implies(z3.And(page.rle == ENC["RLE"], page.dle == ENC["RLE"]), page.rle == ENC["RLE"]))
         if def_ev is not None:
             eng.pose(q, fn + ".def_levels.after_rep_levels_with_length_prefix", z3.And(reads_def, def_ev["prefix_at"] == r_end),
                      "definition levels: 4-byte length + runs directly after the repetition level block (offset 0 for a flat column)")
@@ -1594,8 +1643,6 @@ def run_data_page_v1(ctx, funcs, timeout):
             eng.pose(q, fn + ".levels.count_is_num_values", z3.And(def_ev["cap"] == NV, def_ev["out"].root.n == NV, def_ev["out"].off == 0))
             eng.pose(q, fn + ".levels.declared_encoding_is_the_one_decoded", page.dle == ENC["RLE"],
                      "levels are decoded as RLE hybrid only if the header declares RLE (deprecated BIT_PACKED must be refused or decoded as such)")
-            eng.pose(q, fn + ".levels.declared_encoding_is_the_one_decoded[header declares RLE levels]",
-                     z3.Implies(z3.And(page.rle == ENC["RLE"], page.dle == ENC["RLE"]), page.dle == ENC["RLE"]))
         eng.pose(q, fn + ".def_levels.skipped_block_only_when_no_nulls",
                  z3.And(z3.BoolVal(len(skips) <= 1), z3.And(skip, z3.Not(S.required), skips[0]["at"] == r_end, skips[0]["num"] == NV)
                         if skips else z3.BoolVal(True)),
@@ -1664,8 +1711,6 @@ def run_data_page_v1(ctx, funcs, timeout):
             wb = z3.And(z3.BoolVal(len(rb) == 1), *([rb[0]["pos"] == d_end, e["width"] == rb[0]["value"], e["start"] == d_end + 1] if rb else []))
             note = "dictionary indices: the byte after the levels is the index bit width, the runs start one byte later and are decoded with it"
             eng.pose(q, fn + ".values.dictionary.width_byte_consumed", z3.Implies(z3.And(some, is_dict), wb), note)
-            eng.pose(q, fn + ".values.dictionary.width_byte_consumed[column is not BOOLEAN]",
-                     z3.Implies(z3.And(some, is_dict, S.ptype != TY["BOOLEAN"]), wb), note)
             eng.pose(q, fn + ".values.dictionary.runs_extend_to_page_end", z3.Implies(z3.And(some, is_dict), e["start"] + e["nbytes"] == body.n),
                      "dictionary indices: the runs take the rest of the page (no length prefix)")
             eng.pose(q, fn + ".values.rle_boolean.runs_start_after_length_prefix",
@@ -1674,11 +1719,9 @@ def run_data_page_v1(ctx, funcs, timeout):
                      "RLE booleans: 4-byte length, then the runs (bit width 1)")
             count_goal = z3.And(e["cap"] == nval, e["out"].off == 0, z3.BoolVal(src == ("hybrid", e["seq"])))
         elif src == ("zeros",):
-            for suffix, extra in (("", []), ("[column is not BOOLEAN]", [S.ptype != TY["BOOLEAN"]])):
-                eng.pose(q, fn + ".values.dictionary.width_byte_consumed" + suffix,
-                         z3.Implies(z3.And(some, is_dict, *extra), z3.And(z3.BoolVal(len(rb) == 1), *([rb[0]["pos"] == d_end, rb[0]["value"] == 0]
-                                                                                                   if rb else []))),
-                         "index bit width 0: every index is 0, no run is decoded")
+            eng.pose(q, fn + ".values.dictionary.width_byte_consumed",
+                     z3.Implies(z3.And(some, is_dict), z3.And(z3.BoolVal(len(rb) == 1), *([rb[0]["pos"] == d_end, rb[0]["value"] == 0] if rb else []))),
+                     "index bit width 0: every index is 0, no run is decoded")
             count_goal = varr.root.n == nval
         if count_goal is not None:
             eng.pose(q, fn + ".values.count_is_num_values_minus_num_nulls", count_goal,
@@ -1864,10 +1907,16 @@ def marker_ok(src, kind, cat):
     return z3.BoolVal(False)
 
 
-def run_read_col(ctx, funcs, timeout, mode):
+def run_read_col(ctx, funcs, timeout, mode, any_sizes=False):
+    """any_sizes: the run that asks what happens when the pages declare MORE values than ColumnMetaData.num_values / the rows of the row
+    group: the assumption `the data pages sum to num_values` (and with it `pages stay inside the output`) is dropped and one obligation is
+    posed on every path that gets through the body: nothing was truncated silently"""
     res = Results()
-    fn, tag = "read_col", f"read_col[{mode}]"
+    fn, tag = "read_col", f"read_col[{mode}{', pages of any size' if any_sizes else ''}]"
     C = Chunk(mode)
+    if any_sizes:
+        C.pre = [c for c in C.pre if not c.eq(C.VS(C.K) == C.S.num_values)]
+        # (the monotonicity lemma itself stays: it does not depend on the dropped assumption)
     S = C.S
     cat = mode == "categorical"
     S.cmd.fields["statistics"] = Custom(StatsObj(S))
@@ -2052,6 +2101,7 @@ def run_read_col(ctx, funcs, timeout, mode):
         for e2, c in eng.cond(st.test, e):
             e2.pc += [z3.Not(c), C.mono(k, C.K), C.mono(z3.IntVal(0), k)]
             e2.ghost["exit_k"] = k
+            e2.ghost["region"] = S.num_values != C.len_assign      # finding: the chunk holds fewer values than the row group has rows
             if eng.feasible(e2):
                 outs.append(e2)
         # one arbitrary page
@@ -2061,6 +2111,11 @@ def run_read_col(ctx, funcs, timeout, mode):
             pg, facts = C.page_facts(k)
             b2.pc += [c] + facts + [C.mono(k + 1, C.K), C.mono(k, C.K), C.mono(z3.IntVal(0), k)]
             b2.ghost["cur_page"] = (k, pg)
+            # input regions of the findings recorded for read_col: v2 page with an empty values section (the cut's contract: cursor
+            # at the end of the chunk); categorical read of a chunk with a page that is not dictionary-encoded
+            b2.ghost["region"] = z3.Or(z3.And(pg.type == PT["DATA_PAGE_V2"], pg.cps - pg.rl - pg.dl < 1),
+                                       z3.And(z3.BoolVal(cat), z3.Or(z3.And(pg.type == PT["DATA_PAGE"], z3.Not(in_set(pg.enc, DICT_ENCS))),
+                                                                     z3.And(pg.type == PT["DATA_PAGE_V2"], z3.Not(in_set(pg.enc2, DICT_ENCS))))))
             if not eng.feasible(b2):
                 continue
             for r in eng.block(st.body, [b2]):
@@ -2076,9 +2131,16 @@ def run_read_col(ctx, funcs, timeout, mode):
 
     def after_body(eng, r, st, k, pg):
         C.body_paths.append(r)
+        if any_sizes:
+            stores = [e for e in r.ghost.get("ev", []) if e["kind"] == "store" and e["tgt"].root is C.assign]
+            if events(r, "page_v1"):
+                eng.oblige(r, fn + ".data_page.page_beyond_the_output_is_refused_not_truncated", "post",
+                           z3.And(z3.BoolVal(bool(stores)), *[z3.And(e["tgt"].n == pg.nv, e["tgt"].hi_raw <= C.len_assign) for e in stores]), st,
+                           "a page that does not fit into what is left of the output (pages declaring more values than the row group has "
+                           "rows) never gets through the loop body: numpy's length checks raise; nothing is written truncated")
+            return
         for name, g in invariant(eng, r, k + 1):
-            sfx = "@v2-page-with-empty-values-section" if any(e.get("empty_values") for e in events(r, "page_v2")) else ""
-            eng.oblige(r, f"{fn}.page_loop.invariant_preserved[{name}]{sfx}", "inv", g, st)
+            eng.oblige(r, f"{fn}.page_loop.invariant_preserved[{name}]", "inv", g, st)
         evs = r.ghost.get("ev", [])
         kinds = [e["kind"] for e in evs]
         stores = [e for e in evs if e["kind"] == "store" and e["tgt"].root is C.assign]
@@ -2190,7 +2252,13 @@ def run_read_col(ctx, funcs, timeout, mode):
                  "the chunk is the total_compressed_size bytes starting at the dictionary page offset if there is one, else at data_page_offset")
     # ---- exits
     n_exit = 0
-    for q in outs:
+    if any_sizes:
+        eng.oblig = [ob for ob in eng.oblig if ob.name.endswith("page_beyond_the_output_is_refused_not_truncated")]
+        outs_checked = []
+    else:
+        outs_checked = outs
+    n_exit = sum(1 for q in outs if q.ctl[0] == "ret" and "exit_k" in q.ghost) if any_sizes else 0
+    for q in outs_checked:
         if q.ctl[0] == "ret" and "exit_k" in q.ghost:
             n_exit += 1
             num = eng.as_int(q.ghost["locals:" + fn]["num"], q)
@@ -2199,9 +2267,6 @@ def run_read_col(ctx, funcs, timeout, mode):
             eng.pose(q, fn + ".exit.every_output_row_written", num == C.len_assign,
                      "at the end every row of the output array has been written (the chunk holds as many values as the row group has rows) "
                      "- otherwise the call must raise")
-            q2 = q.fork()
-            q2.pc.append(S.num_values == C.len_assign)
-            eng.pose(q2, fn + ".exit.every_output_row_written[chunk num_values == rows of the row group]", num == C.len_assign)
         elif q.ctl[0] == "ret":
             eng.pose(q, f"{fn}.returns_only_after_the_page_loop@return-L{ret_line(q)}", z3.BoolVal(False))
         else:
@@ -2278,8 +2343,21 @@ def run_data_page_v2(ctx, funcs, timeout):
         z3.Implies(E == ENC["RLE"], S.ptype == TY["BOOLEAN"]),
         z3.Implies(E == ENC["DELTA_BINARY_PACKED"], z3.Or(S.ptype == TY["INT32"], S.ptype == TY["INT64"])),
         z3.Implies(in_set(E, DICT_ENCS), z3.Not(dic_none)), dic.n >= 0,
-        z3.Implies(z3.And(NN > 0, z3.Not(assign.masked)), z3.Not(in_set(assign.kind, [ord(c) for c in "iub"]))),
-        z3.Implies(use_cat, z3.And(in_set(assign.kind, [ord("i"), ord("u")]), z3.Not(assign.masked)))]
+        z3.Implies(z3.And(NN > 0, z3.Not(assign.masked), z3.Not(use_cat)), z3.Not(in_set(assign.kind, [ord(c) for c in "iub"]))),
+        z3.Implies(use_cat, z3.And(in_set(assign.kind, [ord("i"), ord("u")]), z3.Not(assign.masked))),
+        # a page that holds a non-null value has a non-empty values section (RLE booleans: length prefix + runs)
+        z3.Implies(NV - NN >= 1, z3.And(size >= 1, page.ups - DL - RL >= 1)),
+        z3.Implies(z3.And(NV - NN >= 1, E == ENC["RLE"]), page.ups - DL - RL >= 5)]
+    is_dict_, is_rle_, is_delta_ = in_set(E, DICT_ENCS), E == ENC["RLE"], E == ENC["DELTA_BINARY_PACKED"]
+    # input regions of the findings recorded for read_data_page_v2 (contracts/findings.jsonl: C03-P-v2-*, C03-P-categorical-*)
+    R = {"empty_values": size < 1,
+         "nullable_multipage": z3.And(assign.masked, NN > 0, z3.Or(N != NV, num != 0)),
+         "scratch_with_nulls": z3.And(NN > 0, z3.Or(is_rle_, z3.And(is_dict_, use_cat))),
+         "delta_nulls": z3.And(is_delta_, NN > 0),
+         "delta_64bit": z3.And(is_delta_, z3.Or(S.ptype == TY["INT64"], assign.item != 4)),
+         "categorical_plain": z3.And(use_cat, z3.Not(is_dict_)),
+         "categorical_dict_foreign": z3.And(is_dict_, use_cat)}
+    eng.default_region = z3.Or(*R.values())
     f.set(p, entry)
     st, _, _ = solve(list(p.pc), timeout)
     if st == REFUTED:
@@ -2296,14 +2374,31 @@ def run_data_page_v2(ctx, funcs, timeout):
     supported = in_set(E, SUPPORTED)
     is_dict, is_rle, is_plain, is_delta = in_set(E, DICT_ENCS), E == ENC["RLE"], E == ENC["PLAIN"], E == ENC["DELTA_BINARY_PACKED"]
     F = z3.BoolVal(False)
+    def framing(q):
+        """selfmade fast path (C01 framing lemma): the bytes after the run header are the non-null codes, itemsize bytes each"""
+        ob_ = unopt(q.ghost.get("locals:" + fn, {}).get("outbytes"))
+        if isinstance(ob_, Custom) and isinstance(ob_.h, Bts):
+            q.pc.append(ob_.h.n == (NV - NN) * assign.item)
+            return True
+        return False
     for q in rets:
         evs = q.ghost.get("ev", [])
+        q = q.fork()
+        if framing(q):
+            q.ghost["region"] = z3.Or(*[v for k_, v in R.items() if k_ != "categorical_dict_foreign"])
         eng.pose(q, fn + ".unsupported_encoding_raises", supported,
                  "a v2 page whose value encoding is outside PLAIN / dictionary / RLE / DELTA_BINARY_PACKED reaches a raise")
+        eng.pose(q, fn + ".rows.categorical_codes_only_from_dictionary_encoded_pages", z3.Implies(use_cat, is_dict),
+                 "categorical read: only the indices of a dictionary-encoded page are stored as category codes; a PLAIN / RLE / DELTA "
+                 "page (dictionary fallback) is refused or re-coded")
         r = q.ctl[1]
         eng.pose(q, fn + ".returns_num_values", eng.as_int(r, q) == NV if isinstance(r, (PyI, Opt)) else F,
                  "the caller advances its row offset by what is returned: the page's num_values")
         loc = q.ghost.get("locals:" + fn, {})
+        idx = loc.get("idx")
+        eng.pose(q, fn + ".idx.row_index_untouched_for_flat_column",
+                 z3.BoolVal(isinstance(idx, Tup) and len(idx.items) == 1 and isinstance(idx.items[0], PyI) and idx.items[0].z.eq(z3.Int("row_idx"))),
+                 "idx[0] (the row cursor of repeated columns) is advanced only for max_repetition_level > 0")
         nv_code = loc.get("n_values")
         eng.pose(q, fn + ".values.count_is_num_values_minus_num_nulls", eng.as_int(nv_code, q) == NV - NN if isinstance(nv_code, PyI) else F,
                  "the number of values to decode is num_values - num_nulls of the header")
@@ -2324,8 +2419,6 @@ def run_data_page_v2(ctx, funcs, timeout):
             eng.pose(q, fn + ".levels.def_width_is_width_from_max_level", e["width"] == WIDTH(S.max_def))
             eng.pose(q, fn + ".levels.def_output_holds_num_values_entries", z3.And(e["out"].root.n == NV, e["out"].off == 0, e["out"].n == NV),
                      "the definition levels of a page are decoded into an array of exactly this page's num_values entries")
-            eng.pose(q, fn + ".levels.def_output_holds_num_values_entries[output is not a pandas nullable array]",
-                     z3.Implies(z3.Not(assign.masked), z3.And(e["out"].root.n == NV, e["out"].off == 0, e["out"].n == NV)))
         ok_v = vread is not None
         eng.pose(q, fn + ".values.start_at_sum_of_level_lengths", vread["pos"] == entry + RL + DL if ok_v else F,
                  "the values section starts repetition_levels_byte_length + definition_levels_byte_length bytes after the page header")
@@ -2333,9 +2426,6 @@ def run_data_page_v2(ctx, funcs, timeout):
                  "the values section is compressed_page_size minus the two level lengths bytes long")
         eng.pose(q, fn + ".page_consumed_exactly", f.pos(q) == entry + page.cps,
                  "on return the chunk cursor is at the next page header: header end + compressed_page_size")
-        q1 = q.fork()
-        q1.pc.append(size >= 1)
-        eng.pose(q1, fn + ".page_consumed_exactly[values section not empty]", f.pos(q) == entry + page.cps)
         if not ok_v:
             continue
         V = vread["bts"]
@@ -2360,6 +2450,9 @@ def run_data_page_v2(ctx, funcs, timeout):
                  "only the values section is decompressed, with ColumnMetaData.codec, iff is_compressed (absent = true); else it is used as stored")
         eng.pose(q, fn + ".values.uncompressed_size_is_page_size_minus_levels", g2,
                  "the values section decompresses to uncompressed_page_size minus the two level lengths")
+        if vreg is not None:
+            q.pc.append(z3.Implies(z3.And(is_dict, NV - NN >= 1, BYTE(vreg.rid, 0) >= 1), vreg.n >= 2))
+
         # ---- decoder calls on the values section
         def on_values(e):
             return vreg is not None and e.get("io") is not None and e["io"].base is not None and e["io"].base.region is vreg
@@ -2380,8 +2473,6 @@ def run_data_page_v2(ctx, funcs, timeout):
             wb = z3.And(z3.BoolVal(len(rb) == 1 and not vi), *([rb[0]["pos"] == 0, e["width"] == rb[0]["value"], e["start"] == 1] if rb else []))
             note = "dictionary indices: first byte = index bit width, the runs start at the second byte and are decoded with that width"
             eng.pose(q, fn + ".values.dictionary.width_byte_consumed_then_runs", z3.Implies(z3.And(some, is_dict), wb), note)
-            eng.pose(q, fn + ".values.dictionary.width_byte_consumed_then_runs[not a categorical read]",
-                     z3.Implies(z3.And(some, is_dict, z3.Not(use_cat)), wb), note)
             eng.pose(q, fn + ".values.rle_boolean.length_prefix_skipped",
                      z3.Implies(z3.And(some, is_rle), z3.And(e["width"] == 1, e["start"] == 4, z3.BoolVal(len(sk) == 1 and not rb))),
                      "RLE booleans: the runs start after the 4-byte length prefix, bit width 1")
@@ -2398,8 +2489,6 @@ def run_data_page_v2(ctx, funcs, timeout):
                        z3.BoolVal(e["out"].view == "bytes"))
             note = "DELTA_BINARY_PACKED: 8-byte stores into 8-byte items iff the column is INT64, else 4-byte stores into 4-byte items"
             eng.pose(q, fn + ".values.delta.output_width_matches_type", g, note)
-            eng.pose(q, fn + ".values.delta.output_width_matches_type[INT32 column with a 4-byte output]",
-                     z3.Implies(z3.And(S.ptype == TY["INT32"], z3.Or(e["out"].root.item == 4, z3.BoolVal(e["out"].root is not assign))), g), note)
         # ---- rows
         writes = []
         for e in evs:
@@ -2427,7 +2516,7 @@ def run_data_page_v2(ctx, funcs, timeout):
             g = F
         eng.pose(q, fn + ".rows.defined_positions_get_values_in_order", g,
                  "exactly one write of values: to the positions whose definition level is the maximum (all when the page has no null), "
-                 "num_values - num_nulls of them")
+                 "num_values - num_nulls of them [value writes at L%s]" % ",".join(str(w["ev"]["line"]) for w in vw))
         ne = [e for e in evs if e["kind"] == "not_equal_inplace"]
         mask_ok = levarr is not None and len(ne) == 1 and ne[0]["arr"].root is levarr.root and ne[0]["arr"].role == levarr.role \
             and z3.is_true(z3.simplify(ne[0]["val"] == S.max_def))
@@ -2449,8 +2538,16 @@ def run_data_page_v2(ctx, funcs, timeout):
                  "other encoding is never routed through the dictionary")
     for q in raises:
         why = events(q, "numpy_raise")
-        eng.pose(q, f"{fn}.supported_page_is_not_refused@L{raise_line(q)}", z3.Not(supported),
-                 "a valid page with a supported encoding is decoded, not refused" + (": " + why[0]["why"] if why else ""))
+        q = q.fork()
+        if framing(q):
+            q.ghost["region"] = z3.Or(*[v for k_, v in R.items() if k_ != "categorical_dict_foreign"])
+        if why and why[0].get("view") == "bytes" and why[0]["tgt"].root is assign:
+            # fixed-width PLAIN values stored as they are, read into an output whose element size matches (`see`): n * itemsize bytes
+            q.pc.append(z3.Implies(z3.And(is_plain, eff_codec == 0, z3.Not(use_cat)), why[0]["srclen"] == why[0]["cnt"]))
+        eng.pose(q, f"{fn}.supported_page_is_not_refused@L{raise_line(q)}:{q.ctl[1]}",
+                 z3.Or(z3.Not(supported), z3.And(use_cat, z3.Not(is_dict))),
+                 "a valid page with a supported encoding is decoded, not refused (a categorical read may refuse a page that is not "
+                 "dictionary-encoded)" + (": " + why[0]["why"] if why else ""))
     if not rets:
         ctx.engine_error(fn + ": no returning path")
     ctx.vacuity["covers"] += len(rets)
@@ -2474,7 +2571,8 @@ def check(ctx, timeout, parts=("dictionary_page", "data_page_v1", "data_page_v2"
         ctx.function("core." + fn, funcs[fn].sha, funcs[fn].report)
     out = []
     runs = {"dictionary_page": run_dictionary_page, "data_page_v1": run_data_page_v1, "data_page_v2": run_data_page_v2,
-            "read_col": lambda c, f, t: [run_read_col(c, f, t, "values"), run_read_col(c, f, t, "categorical")]}
+            "read_col": lambda c, f, t: [run_read_col(c, f, t, "values"), run_read_col(c, f, t, "categorical"),
+                                         run_read_col(c, f, t, "values", any_sizes=True)]}
     for part in parts:
         if part not in runs:
             continue
